@@ -260,6 +260,18 @@ def run(ctx):
         e["max_us"] = max(e["max_us"], r["us"])
         if r["outcome"] in ("ok", "err"):
             e["max_alloc_per_byte"] = max(e["max_alloc_per_byte"], round(max(0, r["alloc"] - (1 << 20)) / max(1, r["len"]), 1))
+    # distribution: entry point x mutation kind (input class) -> calls / errors returned / failures
+    dist = collections.OrderedDict()
+    kinds = collections.OrderedDict()
+    for i in sorted(results):
+        r = results[i]
+        c = dist.setdefault(r["ep"], collections.OrderedDict()).setdefault(r["class"], [0, 0, 0])
+        c[0] += 1
+        if r["outcome"] == "err":
+            c[1] += 1
+        elif r["outcome"] != "ok":
+            c[2] += 1
+        kinds[r["class"]] = kinds.get(r["class"], 0) + 1
     violations, known = [], {}
     infra = None
     seen_v = {}
@@ -309,6 +321,9 @@ def run(ctx):
     ev = {"jobs": njobs, "calls": len(results), "skipped_expected_hang_class": len(skipped), "children": nproc, "wall_s": round(wall, 1),
           "guard_page": "input copied flush against a PROT_NONE page (mmap+mprotect), cap == len", "vmem_limit_kb": VMEM_KB, "watchdog_ms": timeout_ms,
           "alloc_bound": "TotalAlloc delta <= 2048*len + 1 MiB", "by_entry_point": by_ep, "failures": total_fail,
+          "mutation_kinds": kinds,
+          "distribution_entry_point_x_mutation_kind": {"columns": "calls, returned an error, failed (panic/over-read/alloc/hang/crash)",
+                                                       "rows": {ep: {k: "%d/%d/%d" % tuple(v) for k, v in d.items()} for ep, d in dist.items()}},
           "known": {str(k): {"count": v["count"], "by": v["eps"], "smallest": v["min"]} for k, v in known.items()}, "log": log[:40]}
     if len(results) + len(skipped) + total_fail < njobs and not infra and not stopped:
         missing = njobs - len(results) - len(skipped)
